@@ -91,9 +91,18 @@ def main():
         open(path, "w").write("\n".join(sl) + "\n")
         sweep_jobs.append((p, [2, 4][p % 2], path, len(sl)))
 
+    sweep_retries = []
+
     def sweep(j):
         p, nt, path, n = j
-        return j + run([exe_t, "sweep", str(chk.seed + p), str(nt), path, "12" if quick else "200"], timeout=3 * 3600, env=build.lib_env("tsan", dict(TSAN_ENV)))
+        cmd = [exe_t, "sweep", str(chk.seed + p), str(nt), path, "12" if quick else "200"]
+        rc, out, err = run(cmd, timeout=3 * 3600, env=build.lib_env("tsan", dict(TSAN_ENV)))
+        if rc not in (0, None) and not any(l.startswith("{") for l in out.splitlines()) and "ThreadSanitizer: SEGV" in err and "WARNING: ThreadSanitizer: data race" not in err:
+            # the ThreadSanitizer runtime itself died (seen once in 16 x thorough processes on a machine that was also compiling 17 trees; not
+            # reproduced in 75 repetitions of the same process): inconclusive by itself - run the same process once more and keep the first report
+            sweep_retries.append({"process": p, "threads": nt, "rc": rc, "stderr_tail": err[-4000:]})
+            rc, out, err = run(cmd, timeout=3 * 3600, env=build.lib_env("tsan", dict(TSAN_ENV)))
+        return j + (rc, out, err)
 
     sweep_cfgs = sweep_streams = sweep_refused = 0
     for p, nt, path, n, rc, out, err in pmap(sweep, sweep_jobs, jobs=NCPU // 2):
@@ -180,7 +189,7 @@ def main():
         "stress_processes": procs,
         "first_use": {"processes": fu_procs, "results_compared_with_sequential": fu_streams,
                       "entry_points": "stand-alone dbd_gA on the shipped table (resource lookup), DBD / background / quadrature generators, catalogue accessors, get_resource, event_reader"},
-        "sweep": {"processes": nproc, "configurations": sweep_cfgs, "thread_streams_compared": sweep_streams},
+        "sweep": {"processes": nproc, "configurations": sweep_cfgs, "thread_streams_compared": sweep_streams, "processes_rerun_after_a_sanitizer_runtime_failure": sweep_retries},
         "thread_streams_compared": streams,
         "events": events,
         "qng_calls": qng,
